@@ -4,30 +4,84 @@ import vf
 
 META = {
     "claimed": True,
-    "text": "",
-    "note": "",
-    "technique": "Coq proof (structural induction, one lemma per rewrite rule) + model/implementation correspondence",
+    "text": ("Coq theorems over a Gallina model of rten-shape-inference/src/sym_expr.rs (eval with explicit i32 arithmetic in "
+             "both build modes, PartialEq, cmp_values_first + stable sort, canonicalize, simplify_canonical with its constant "
+             "folds, remove_common_factors incl. gcd, range, is_positive), for ALL expressions and assignments, no depth or "
+             "value bound: (1) simplify_sound: if the original evaluates without overflow or division by zero, Broadcast "
+             "operands are equal-or-1 and symbols declared positive are non-negative, the simplified expression evaluates "
+             "(wrapping i32 arithmetic, i.e. SymExpr::eval of a release build) to the same value -- proved rule by rule "
+             "(one lemma per rewrite); (2) simplify never panics; (3) range() contains the value; (4) is_positive() implies "
+             "value >= 0. Theorems (1)-(4) are about the code after four fix commits (F5 range, F17 checked folds, F18 "
+             "nested-division guard, F20 sign of cancelled common factors -- F20 was found by the proof); `_refuted` witness "
+             "theorems show the unfixed code violates each. Known finding F17b: under overflow-CHECKED evaluation (debug "
+             "builds) a re-associated sum/product can trap on an intermediate although the original does not; proved "
+             "unavoidable for the current canonicalize (C11_F17b_checked_eval_refuted), reported as KNOWN-FINDING. The model "
+             "is tied to the code on every run by executing SymExpr::{simplify,range,is_positive,eval} (release and debug "
+             "builds) on enumerated and seeded random expression trees and comparing, inside Coq, the simplified tree "
+             "structurally, the range, the flag and every evaluation outcome with the model; the implementation's own outputs "
+             "are also checked against the property oracle, which yields the concrete replay input."),
+    "note": ("Trusted: Coq kernel; the correspondence sample (a test, not a proof); Vec::sort_by modelled as stable insertion "
+             "sort (the comparator is a consistent weak order); symbol names mapped order-preservingly to numbers; Arc sharing "
+             "ignored. Broadcast precondition read as: both operands >= 0 and equal, or one is 1 and the other >= 1 "
+             "(0-vs-1 excluded: eval gives 1, the rewrite gives 0). simplify_sound concludes about wrapping evaluation only "
+             "(see F17b)."),
+    "technique": "Coq proof (structural induction, permutation invariance, one lemma per rewrite rule) + model/implementation correspondence",
 }
 GROUP = "symexpr"
 REQ = ("From RV Require Import Prelude.\nFrom SymExpr Require Import SymExprModel.\n"
        "Open Scope Z_scope.")
-THEOREMS = []
-
-
-def classify(case):
-    return None
+THEOREMS = ["C11_simplify_sound", "C11_simplify_total", "C11_range_sound", "C11_is_positive_sound",
+            "C11_eval_release_agrees", "C11_canonicalize_sound", "C11_simplify_canonical_sound", "C11_evalR_between",
+            "C11_canonical_sub_free", "C11_oracle_accepts_model", "C11_oracle_reject_is_counterexample",
+            "C11_F5_range_refuted", "C11_F17_fold_refuted", "C11_F17_panic_refuted", "C11_F18_divceil_nest_refuted",
+            "C11_F20_common_factor_refuted", "C11_F17b_checked_eval_refuted", "C11_nonvacuous"]
 
 
 def main(ctx):
-    ctx.rule = ""
+    ctx.rule = ("exhaustive depth<=1 trees over 13 constants {0,+-1,+-2,3,7,256,768,65536,46341,i32::MIN,i32::MAX} and two symbols; "
+                "depth-2 trees with one leaf operand over {0,1,-1,2,i32::MIN} and two symbols (exhaustive in the thorough tier, "
+                "1/24 sample in quick); Neg placements; seeded random trees of depth<=5 with shared subterms and rewrite-shaped "
+                "subtrees (nested Div/DivCeil, common factors, cancelling terms, Max/Min/Broadcast chains), <=3 symbols "
+                "(positive and unconstrained, rarely the same name with both flags); per tree 9-14 assignments (all 0, all 1, "
+                "all equal, -1 for unconstrained symbols, small values, extremes, a missing symbol); release build on "
+                "everything, debug build on a third of the enumerated streams; a case is non-trivial when the tree is not a leaf")
+    ctx.trusted += ["modelled, not verified: Vec::sort_by (stable insertion sort in the model), Arc, String comparison of "
+                    "symbol names (single letters a..e mapped to 0..4)",
+                    "SymExpr::{simplify,range,is_positive,eval} are reached through the public API of rten-shape-inference"]
+    ctx.assumptions += ["Broadcast operands are both >= 0 and equal, or one is 1 and the other >= 1 (bcast_ok)",
+                        "symbols declared positive are assigned non-negative values (pos_ok)",
+                        "simplify_sound concludes for wrapping (release-build) evaluation of the simplified expression"]
     ctx.audit(GROUP)
-    failed = ctx.prove(GROUP, "Props_C11", THEOREMS) if THEOREMS else []
+    failed = ctx.prove(GROUP, "Props_C11", THEOREMS)
     agree = "agree_old" if os.environ.get("C11_MODEL") == "old" else "agree"
-    for profile, nq, nt in (("release", 2500, 40000), ("debug", 1200, 15000)):
-        bindir = ctx.harness(GROUP, profile=profile, bins=["c11"], hooks=False)
-        cases = ctx.gen_exec(bindir, "c11", ctx.n(nq, nt), inputs=ctx.replay_inputs())
-        ctx.correspond("simplify/range/is_positive/eval (%s build)" % profile, GROUP, REQ, cases,
-                       classify=classify, show="show", agree=agree,
-                       fn_name="SymExpr.SymExprModel.{simplify_gen cfg_fixed, range, is_positive, evalm}")
+    fn = "SymExpr.SymExprModel.{simplify_gen cfg_fixed, range, is_positive, evalm}"
+
+    # release build: wrapping arithmetic
+    bindir = ctx.harness(GROUP, profile="release", bins=["c11"], hooks=False)
+    cases = ctx.gen_exec(bindir, "c11", ctx.n(1500, 40000), inputs=ctx.replay_inputs())
+    ctx.correspond("simplify/range/is_positive/eval (release build)", GROUP, REQ, cases,
+                   show="show", agree=agree, fn_name=fn)
+
+    # debug build: overflow panics (simplify must not panic; eval panics = EOvf of the model)
+    bindir = ctx.harness(GROUP, profile="debug", bins=["c11"], hooks=False)
+    cases = ctx.gen_exec(bindir, "c11", ctx.n(600, 12000), extra_gen=["lite"], inputs=ctx.replay_inputs())
+    ctx.correspond("simplify/range/is_positive/eval (debug build)", GROUP, REQ, cases,
+                   show="show", agree=agree, fn_name=fn)
+    # known finding F17b: with overflow-checked evaluation the simplified tree may trap on an
+    # intermediate.  strict_only = cases that pass prop_ok but fail prop_strict.
+    ok_fail, strict_fail, err = ctx.coq_eval_cases(GROUP, REQ, [c["term"] for c in cases], agree="prop_ok",
+                                                   prop_ok="prop_strict", tag="strict")
+    if err:
+        raise vf.CheckerBroken("model evaluation failed for the strict oracle: %s" % err)
+    strict_only = [i for i in strict_fail if i not in set(ok_fail)]
+    ctx.extra["checked_eval_intermediate_overflow_cases"] = len(strict_only)
+    if strict_only:
+        ctx.log("F17b: %d case(s) where the simplified expression overflows only under overflow-checked evaluation, e.g. %s"
+                % (len(strict_only), cases[strict_only[0]]["input"]))
+        if not ctx.known("F17b"):
+            c = cases[strict_only[0]]
+            ctx.violation({"kind": "property-failure", "check": "checked evaluation of the simplified expression",
+                           "input": c["input"], "coq_case": c["term"],
+                           "explain": "the simplified expression overflows under overflow-checked evaluation although the original does not (prop_strict)"})
     if failed and not ctx.violations:
         ctx.proof_broken(failed, "all correspondence cases of this run")
